@@ -11,7 +11,7 @@ UNIT = dict(
     encoded={F: ["const SALT", "struct Block", "impl Block (mask, insert, check, to_le_bytes, to_ne_bytes)", "Index/IndexMut for Block",
                  "struct Sbbf", "Sbbf::{new, hash_to_block_index, insert_hash, check_hash, to_bytes, num_blocks, size_bytes}"]},
     models=["Block::mask inside Block::insert/check -> lazily sampled uninterpreted function (deterministic, one bit per word, <=2 distinct arguments); the real mask is checked separately",
-            "Vec<Block> (the filter's block list) -> vstd::cvec fixed-capacity contiguous vector (4 blocks; Block gets a model-only Default = Block::ZERO); the byte buffers stay real Vec<u8>",
+            "Vec<Block> and the Vec<u8> that to_bytes builds -> vstd::cvec fixed-capacity contiguous vector (64 elements; Block gets a model-only Default = Block::ZERO); real Vec<u8> growth (RawVec) ran CBMC out of memory",
             "SbbfError -> unit-like error (format! payload dropped)",
             "Sbbf::insert/check over AsBytes (xxhash of the value bytes) removed: hashing is a library call; the filter is driven through insert_hash/check_hash with arbitrary u64 hashes",
             "with_ndv_fpp/with_log2_num_bytes/write_bitset removed (float sizing, io::Write)"],
@@ -50,7 +50,7 @@ def build(repo, subs):
     lifted = subs.lit(hbi, "fn hash_to_block_index(&self, hash: u64) -> usize {", "pub fn verif_block_index(len: usize, hash: u64) -> usize {",
                       why="same body with the block count as a parameter, so that all counts up to 2^32 can be covered")
     lifted = subs.lit(lifted, "self.blocks.len()", "len", why="see above")
-    body = ("#[derive(Debug)]\npub enum SbbfError { InvalidData }\npub type Result<T> = std::result::Result<T, SbbfError>;\n\n"
+    body = ("use vstd::cvec::Vec;\n#[derive(Debug)]\npub enum SbbfError { InvalidData }\npub type Result<T> = std::result::Result<T, SbbfError>;\n\n"
             + "\n\n".join([salt, blk, iblk, idx, idxm, st, impl]) + "\n\n" + lifted.replace("#[inline]", "") + "\n" + ENV)
     lib = ("#![allow(dead_code, unused_imports, unused_variables, unused_mut, clippy::all)]\n"
            "pub mod sbbf;\npub mod harness;\n")
